@@ -628,8 +628,8 @@ pub fn run(ctx: &Ctx, rep: &mut Report) {
     rep.absorb("eviction", run_random("eviction", ctx.seed, ctx.tier.pick(600, 9_000), true, false));
     // the same two generators over sizes spread across the key range (families equal modulo
     // 256 / 512 / 1024 / 4096 / 32768): "any mix of block sizes" is not "sizes up to 120"
-    rep.absorb("widekeys", run_random("widekeys", ctx.seed, ctx.tier.pick(400, 3_000), false, true));
-    rep.absorb("widekeys-eviction", run_random("widekeys-eviction", ctx.seed, ctx.tier.pick(40, 300), true, true));
+    rep.absorb("widekeys", run_random("widekeys", ctx.seed, ctx.tier.pick(400, 1_500), false, true));
+    rep.absorb("widekeys-eviction", run_random("widekeys-eviction", ctx.seed, ctx.tier.pick(40, 150), true, true));
     if ctx.tier == Tier::Thorough {
         rep.absorb("stress", stress(ctx.seed, 16, 6000));
     } else {
